@@ -33,7 +33,8 @@ def work(cases):
         got = {"status": "ok", "exc": "", "none": False, "steps": []}
         try:
             with contextlib.redirect_stdout(io.StringIO()):
-                res = a.analyze(n_workers=-1, backend=BruteBackend)
+                # every 40th program through the multiprocessing path of analyze (candidates computed by a Pool)
+                res = a.analyze(n_workers=2 if cid % 40 == 7 else -1, backend=BruteBackend)
             if res is None:
                 got["none"] = True
             else:
@@ -74,7 +75,7 @@ def run(tier, seed):
     chk.exhaustive = True
     chk.extra["space"] = "<= 1 axiom and 1..3 named groups (ascending pool order; thorough: descending too) from a pool of 10 driver expressions over 3 booleans and an integer 0..2; 4 answer-key choices"
     chk.extra["invariants_model_checked"] = ["StepSound", "ReasonsKnown", "Progress", "Partition", "ExplMinimal", "Complete", "NoneIffUnsat", "Terminates (liveness, weak fairness)"]
-    chk.assumptions = ["n_workers=-1 (the sequential path of analyze); the multiprocessing path differs only in how candidates are computed",
+    chk.assumptions = ["n_workers=-1 (the sequential path of analyze) for most programs, n_workers=2 (candidates computed by a multiprocessing.Pool) for every 40th",
                        "the backend is a complete brute-force collaborator; integer facts stay inside CPython's small-int range "
                        "(analyze asserts `sol is val`, an identity test)"]
     return chk.finish()
